@@ -162,7 +162,8 @@ def execute(prop, seed, tier="quick", replay=None, want_sample=False):
     for old in fs.ROOT.glob("run-*"):
         shutil.rmtree(old, ignore_errors=True)
     rundir = fs.fresh_dir(f"run-{seed}")
-    fs.reset(dir_stream=tape.s("fs"), bufsize=[1, 7, 64, 512, 8192][tape.s("cfg").draw(5)])
+    fs.reset(dir_stream=tape.s("fs"), bufsize=[1, 7, 64, 512, 8192][tape.s("cfg").draw(5)],
+             coarse_mtime=tape.s("cfg").draw(2) == 0)
     ctx.rundir = rundir
     # swarm: the application's logging configuration.  1 run in 4 has DEBUG logging enabled (records are dropped by a
     # NullHandler), the others have logging disabled; library behaviour must not depend on it
@@ -188,8 +189,14 @@ def execute(prop, seed, tier="quick", replay=None, want_sample=False):
         res.update(outcome="harness-error", detail="SimCrash escaped the scenario\n" + traceback.format_exc())
     except sched.SimCancel:
         res.update(outcome="harness-error", detail="SimCancel escaped the scenario\n" + traceback.format_exc())
-    except Exception:
-        res.update(outcome="harness-error", detail=traceback.format_exc())
+    except Exception as e:
+        if type(e).__name__ == "WalkError":
+            # the structural walker found a library object that is internally inconsistent (e.g. a None operand inside
+            # a condition): that is a finding about the object, not about the harness
+            res.update(outcome="violation", kind=f"{prop.ID}/model-structure-inconsistent", site="structural walker",
+                       detail=str(e), features={})
+        else:
+            res.update(outcome="harness-error", detail=traceback.format_exc())
     finally:
         fs.disarm()
     snap = canary_snapshot()
@@ -373,10 +380,14 @@ def shrink(prop, seed, tier, streams, kind, budget=300, features=None):
     workload.  Keeps a candidate only if the same violation kind recurs.  -> (streams, executions)"""
     best = {k: list(v) for k, v in streams.items()}
     used = 0
+    t_end = time.time() + float(os.environ.get("VERIF_SHRINK_S", 90))  # wall cap per violation (slow scenarios)
 
     def attempt(cand):
         nonlocal used
         used += 1
+        if time.time() > t_end:
+            used = max(used, budget)  # stop: every loop below tests `used < budget`
+            return False, None
         r = execute(prop, seed, tier, replay=cand)
         return _same(r, kind, features), r
 
